@@ -5,8 +5,8 @@ Inductive wcase :=
 | W1 (size thr : nat) (ops : list bool) (observed : list bool)
 | W2 (size thr : nat) (chunks : list (bool * nat)) (observed : list bool)
 (* routing: records (rejected?, dlq write fails?), observed events, observed (stopped, fatal) *)
-| R1 (size thr : nat) (rs : list rec) (es : list ev) (stopped fatal : bool)
-| R2 (size thr : nat) (batches : list (list rec)) (es : list ev) (stopped fatal : bool).
+| R1 (size thr : nat) (rs : list rec) (es : list ev) (stopped fatal panicked : bool)
+| R2 (size thr : nat) (batches : list (list rec)) (es : list ev) (stopped fatal panicked : bool).
 
 Definition beq := Bool.eqb.
 
@@ -31,12 +31,13 @@ Definition chk (c : wcase) : nat :=
   | W2 size t cs obs =>
       code (list_eqb beq (run_v2 (new_win size t) cs) obs)
            (list_eqb beq (run_spec size t init_sp (expand cs)) obs)
-  | R1 size t rs es stopped fatal =>
+  (* a panic of the engine is never what the model does and never what the property allows *)
+  | R1 size t rs es stopped fatal panicked =>
       let (mes, mtm) := route_v1 (new_win size t) false 0 rs in
-      code (ev_list_eqb mes es && term_eqb mtm stopped fatal)
-           (route_ok size t rs es stopped)
-  | R2 size t bs es stopped fatal =>
+      code (negb panicked && ev_list_eqb mes es && term_eqb mtm stopped fatal)
+           (negb panicked && route_ok size t rs es stopped)
+  | R2 size t bs es stopped fatal panicked =>
       let (mes, mtm) := route_v2 (new_win size t) 0 bs in
-      code (ev_list_eqb mes es && term_eqb mtm stopped fatal)
-           (route_ok size t (concat bs) es stopped)
+      code (negb panicked && ev_list_eqb mes es && term_eqb mtm stopped fatal)
+           (negb panicked && route_ok size t (concat bs) es stopped)
   end.
